@@ -124,19 +124,25 @@ func newBoundsAnalyzer(programInfo *ProgramInfo, nameTrie symbols.NameTrie, init
 
 // BoundsCheck checks whether the rules respect the bounds.
 func (bc *BoundsAnalyzer) BoundsCheck() error {
-	predMap := make(map[string]ast.PredicateSym)
+	// Predicates with the same name and different arities are different predicates.
+	predSet := make(map[ast.PredicateSym]bool)
 	for pred := range bc.programInfo.IdbPredicates {
-		predMap[pred.Symbol] = pred
+		predSet[pred] = true
 	}
 	for pred := range bc.initialFactMap {
-		predMap[pred.Symbol] = pred // overwrite ok
+		predSet[pred] = true
 	}
-	preds := make([]ast.PredicateSym, 0, len(predMap))
-	for _, v := range predMap {
-		preds = append(preds, v)
+	preds := make([]ast.PredicateSym, 0, len(predSet))
+	for pred := range predSet {
+		preds = append(preds, pred)
 	}
 	// Fix the order in which we do our checks.
-	sort.Slice(preds, func(i, j int) bool { return preds[i].Symbol < preds[j].Symbol })
+	sort.Slice(preds, func(i, j int) bool {
+		if preds[i].Symbol != preds[j].Symbol {
+			return preds[i].Symbol < preds[j].Symbol
+		}
+		return preds[i].Arity < preds[j].Arity
+	})
 	for _, pred := range preds {
 		if err := bc.inferAndCheckBounds(pred); err != nil {
 			return err
